@@ -331,7 +331,20 @@ func checkJSONRelink(c *Ctx, parse *ssa.Function, seqT types.Type) {
 						return
 					}
 					callee := ci.Common().StaticCallee()
-					if callee == nil || !inModule(callee) || callee.Blocks == nil {
+					if callee == nil {
+						// a method called through an interface, or a function value: where the features go from
+						// there is not followed (a sink interface that *poly.Sequence satisfies, a callback)
+						if _, isB := ci.Common().Value.(*ssa.Builtin); !isB && !linked {
+							linked = true
+							what := "a function value"
+							if ci.Common().IsInvoke() {
+								what = "the interface method " + ci.Common().Method.Name()
+							}
+							st, why = unknown, "Parse's family calls "+what+" at "+c.W.pos(ci.Pos())+"; whether the decoded features are re-added there is not followed"
+						}
+						return
+					}
+					if !inModule(callee) || callee.Blocks == nil {
 						return
 					}
 					for cf := range reachable(callee) {
